@@ -467,7 +467,7 @@ Proof.
                            [put_item (image_id st1 hash) (placement_id pos) (qval st1)])) in *.
   cbn [store_run fold_left].
   assert (E4 : item_step s3 IRestore =
-               set_cursor (match t_saved s3 with Some c => c | None => None end) (t_saved s3) s3).
+               set_cursor (match t_saved s3 with Some c => c | None => Some (0, 0) end) (t_saved s3) s3).
   { cbn [item_step]. rewrite (inv_pending _ _ _ HI3). reflexivity. }
   rewrite E4. rewrite Hid in *. split.
   - apply inv_set_cursor. exact HI3.
